@@ -138,24 +138,32 @@ def wrapSide (cfg : Cfg) (lw : Nat) (ls : List BLine) :
         if s.length = d.length then .ok (s, d)
         else .error (.panic "syntax and diff wrapping differs")
 
-/-- Lines are consumed in alignment order; the first failing line met in that order is the
-panic reported. Returns the per-side results actually consumed. -/
-def firstError (al : Align) (ms ps : List (Except Err (List Row × List Row))) : Option Err :=
-  let rec go (al : Align) (mi pi : Nat) : Option Err :=
-    match al with
-    | [] => none
-    | (m, p) :: r =>
-      let em := match m with
-        | some _ => (match ms[mi]? with | some (.error e) => some e | _ => none)
-        | none => none
-      let ep := match p with
-        | some _ => (match ps[pi]? with | some (.error e) => some e | _ => none)
-        | none => none
-      match em, ep with
-      | some e, _ => some e
-      | none, some e => some e
-      | none, none => go r (if m.isSome then mi + 1 else mi) (if p.isSome then pi + 1 else pi)
-  go al 0 0
+/-- The walk of `wrap_minusplus_block` in the order of the Rust code: per alignment entry, for
+the left then the right side, the index assert, the iterator `next()`, the wrapping of that line
+(which may not terminate) and the row-count assert. Returns the first failure met. -/
+def firstFailure (al : Align) (ms ps : List (Except Err (List Row × List Row))) (b : BSt) : Option Err :=
+  match al with
+  | [] => none
+  | e :: r =>
+    let side := fun (idx : Option Nat) (expected : Nat) (remaining : List Nat)
+        (res : List (Except Err (List Row × List Row))) =>
+      match idx with
+      | none => (none : Option Err)
+      | some i =>
+        if i ≠ expected then some (.panic "bad alignment index")
+        else if remaining.isEmpty then some (.panic "bad wrap info")
+        else match res[expected]? with
+          | some (.error x) => some x
+          | _ => none
+    match side e.1 b.mExp b.mc ms with
+    | some x => some x
+    | none =>
+      match side e.2 b.pExp b.pc ps with
+      | some x => some x
+      | none =>
+        match blockStep b e with
+        | .error x => some x
+        | .ok b' => firstFailure r ms ps b'
 
 def okRows (l : List (Except Err (List Row × List Row))) : List (List Row × List Row) :=
   l.filterMap fun | .ok x => some x | .error _ => none
@@ -163,27 +171,24 @@ def okRows (l : List (Except Err (List Row × List Row))) : List (List Row × Li
 def blockModel (cfg : Cfg) (lwL lwR : Nat) (al : Align) (ml pl : List BLine) : String :=
   let ms := wrapSide cfg lwL ml
   let ps := wrapSide cfg lwR pl
-  -- counts for the alignment walk: a failing line counts as 1 row; if the walk reaches it the
-  -- answer is that failure, if the walk fails earlier the answer is the walk's failure
+  -- row counts for the walk; a failing line counts as 1 row (the walk stops there anyway)
   let cnt := fun (l : List (Except Err (List Row × List Row))) =>
     l.map fun | .ok x => x.1.length | .error _ => 1
-  -- number of lines consumed per side by the walk (may be fewer than given)
-  match firstError al ms ps, wrapBlock al (cnt ms) (cnt ps) with
-  | _, .error e =>
-    -- the walk fails: but a wrap failure met earlier in the walk comes first; both are
-    -- panics, compared by prefix only
-    errLine e
-  | some e, .ok _ => errLine e
-  | none, .ok (al', sl, sr) =>
-    let o := fun (x : Option Nat) => match x with | some v => toString v | none => "-"
-    let used := fun (side : Bool) => (al.filter fun e => if side then e.1.isSome else e.2.isSome).length
-    let bits := fun (l : List Bool) => String.join (l.map fun b => if b then "1" else "0")
-    let msr := (okRows ms).take (used true)
-    let psr := (okRows ps).take (used false)
-    "ok A " ++ toString al'.length ++ String.join (al'.map fun e => " " ++ o e.1 ++ " " ++ o e.2)
-      ++ " SL x" ++ bits sl ++ " SR x" ++ bits sr
-      ++ " SYNL" ++ fmtRows (msr.flatMap (·.1)) ++ " DIFL" ++ fmtRows (msr.flatMap (·.2))
-      ++ " SYNR" ++ fmtRows (psr.flatMap (·.1)) ++ " DIFR" ++ fmtRows (psr.flatMap (·.2))
+  match firstFailure al ms ps (initB (cnt ms) (cnt ps)) with
+  | some e => errLine e
+  | none =>
+    match wrapBlock al (cnt ms) (cnt ps) with
+    | .error e => errLine e
+    | .ok (al', sl, sr) =>
+      let o := fun (x : Option Nat) => match x with | some v => toString v | none => "-"
+      let used := fun (side : Bool) => (al.filter fun e => if side then e.1.isSome else e.2.isSome).length
+      let bits := fun (l : List Bool) => String.join (l.map fun b => if b then "1" else "0")
+      let msr := (okRows ms).take (used true)
+      let psr := (okRows ps).take (used false)
+      "ok A " ++ toString al'.length ++ String.join (al'.map fun e => " " ++ o e.1 ++ " " ++ o e.2)
+        ++ " SL x" ++ bits sl ++ " SR x" ++ bits sr
+        ++ " SYNL" ++ fmtRows (msr.flatMap (·.1)) ++ " DIFL" ++ fmtRows (msr.flatMap (·.2))
+        ++ " SYNR" ++ fmtRows (psr.flatMap (·.1)) ++ " DIFR" ++ fmtRows (psr.flatMap (·.2))
 
 def argValue (args : List String) (name : String) : Option String :=
   match args with
